@@ -4127,8 +4127,10 @@ class Wallet(object):
             transaction.fee = int(amount_total_input - amount_total_output)
             if transaction.fee < 0:
                 raise WalletError("Total amount of outputs is greater then total amount of inputs")
-            # Fee is the remainder of the specified inputs: check the fee limits below with the real fee per kB
+            # Fee is the remainder of the specified inputs: check the fee limits below with the real fee per kB of
+            # this transaction without change outputs
             transaction.fee_per_kb = None
+            transaction.size = transaction.estimate_size(number_of_change_outputs=0)
         else:
             transaction.change = int(amount_total_input - (amount_total_output + transaction.fee))
 
